@@ -572,8 +572,21 @@ fn c06(r: &Run) -> Vec<String> {
                 }
             }
             MacroIdentifier | MacroLabel => {
-                if !text.starts_with('%') || text.len() < 2 {
+                // '%' + name: a name start (XID_Start or '_'), then name characters only
+                let mut it = text.chars();
+                let ok = it.next() == Some('%')
+                    && it.next().map_or(false, |c| c == '_' || unicode_ident::is_xid_start(c))
+                    && it.all(|c| if c.is_ascii() { c.is_ascii_alphanumeric() || c == '_' } else { unicode_ident::is_xid_continue(c) });
+                if !ok {
                     bad("macro identifier must be % + name".into());
+                }
+            }
+            Identifier => {
+                let mut it = text.chars();
+                let ok = it.next().map_or(false, |c| c == '_' || unicode_ident::is_xid_start(c))
+                    && it.all(|c| if c.is_ascii() { c.is_ascii_alphanumeric() || c == '_' } else { unicode_ident::is_xid_continue(c) });
+                if !ok {
+                    bad("identifier must be a name".into());
                 }
             }
             tt if is_kwm(tt) => {
